@@ -96,14 +96,15 @@ Proof.
   induction rs as [|r rest IH]; intros d sp H; [split; reflexivity|].
   destruct (do_read_R d sp r H) as (d1 & o1 & E1 & R1 & O1).
   destruct (do_read_R d1 sp r R1) as (d2 & o2 & E2 & R2 & O2).
-  cbn [read_run]. rewrite E1, E2. cbn [pure_run length].
+  cbn [read_run]. rewrite E1, E2. cbn [pure_run length e_snap e_same e_calls forallb].
   rewrite (psnap_same_R d d1 sp H R1), (out_rel_same sp r o1 o2 O1 O2), (psnap_same_R d1 d2 sp R1 R2). cbn [andb].
   destruct (IH d2 sp R2) as [P L]. split; [|now rewrite L].
   (* the next read starts from d2, whose snapshot shows the same dataset as d1's *)
   clear - P R1 R2. revert P. generalize (read_run d2 rest). intros l.
-  destruct l as [|[s f] l]; auto. cbn [pure_run]. intros P.
-  apply andb_true_iff in P. destruct P as [P1 P3]. apply andb_true_iff in P1. destruct P1 as [P1 P2].
-  rewrite P2, P3, !andb_true_r.
+  destruct l as [|[s f cs] l]; auto. cbn [pure_run e_snap e_same e_calls]. intros P.
+  apply andb_true_iff in P. destruct P as [P1 P3]. apply andb_true_iff in P1. destruct P1 as [P1 P4].
+  apply andb_true_iff in P1. destruct P1 as [P1 P2].
+  rewrite P2, P3, P4, !andb_true_r.
   (* psnap_same is transitive *)
   pose proof (psnap_same_R d1 d2 sp R1 R2) as T.
   unfold psnap_same in *. apply andb_true_iff in T, P1. destruct T as [T1 T2], P1 as [Q1 Q2].
@@ -180,6 +181,12 @@ Proof.
   split; intros [H1 H2]; split; auto; intros g; specialize (H2 g); now rewrite !N_sadd_In in *.
 Qed.
 
-Lemma pure_run_reading prev s f l :
-  pure_run prev ((s, f) :: l) = true <-> psnap_same prev s = true /\ f = true /\ pure_run s l = true.
-Proof. cbn [pure_run]. rewrite !andb_true_iff. tauto. Qed.
+Lemma pure_run_reading prev e l :
+  pure_run prev (e :: l) = true <->
+  psnap_same prev (e_snap e) = true /\ e_same e = true
+  /\ (forall c, In c (e_calls e) -> In c (read_meths ++ benign_meths)) /\ pure_run (e_snap e) l = true.
+Proof.
+  cbn [pure_run]. rewrite !andb_true_iff, forallb_forall. unfold call_ok.
+  split; [intros [[[H1 H2] H3] H4]|intros (H1 & H2 & H3 & H4)]; repeat split; auto;
+    intros c Hc; apply (memb_In _ N.eqb_spec); auto.
+Qed.
